@@ -386,7 +386,7 @@ def install(spec: Spec):
             params={'self': 'EventBus', 'event': 'BaseEvent', 'timeout': 'opt[real]'}, returns='NoneType', locals={'checked_ids': 'set[str]'},
             requires=[('lock_held', "ctx('holds_global_lock')", ['C06', 'C02']), ('in_loop', 'loop_running()', []), ('serial_bus', 'not self.parallel_handlers', [])],
             modifies=[('event_results', '*'), ('status', '*'), ('result', '*'), ('error', '*'), ('started_at', '*'), ('completed_at', '*'), ('_handler_completed_signal', '*'),
-                      ('ev_set', '*'), ('task_done', '*'), ('task_cancel_requested', '*'), ('event_processed_at', '*'), ('_event_completed_signal', '*'), ('event_history', '*')],
+                      ('ev_set', '*'), ('task_done', '*'), ('task_cancel_requested', '*'), ('event_processed_at', '*'), ('set_members', '*'), ('_event_completed_signal', '*'), ('event_history', '*')],
             ghost_modifies=['processed', 'invoked', 'eh_calls', 'wal_calls', 'wal_lines', 'wal_opens', 'cancel_walk_calls'],
             callsites={'self._get_applicable_handlers': {'pre': pe_first_stmt, 'ghost_writes': ['processed']},
                        'self._execute_handlers': {'pre': pe_before_handlers},
@@ -411,7 +411,7 @@ def install(spec: Spec):
             requires=[STARTED, LOCK_INV, SERIAL], assume_asserts=['self._on_idle and self.event_queue'], interference='runloop',
             modifies=[('q_items', '*'), ('q_unfinished', '*'), ('ev_set', '*'), ('task_done', '*'), ('task_cancel_requested', '*'), ('_depth', '*'),
                       ('_semaphore', '*'), ('_loop', '*'), ('sem_value', '*'), ('sem_loop', '*'), ('g$global_lock', '*'), ('event_results', '*'), ('status', '*'), ('result', '*'), ('error', '*'),
-                      ('started_at', '*'), ('completed_at', '*'), ('_handler_completed_signal', '*'), ('event_processed_at', '*'), ('_event_completed_signal', '*'), ('event_history', '*')],
+                      ('started_at', '*'), ('completed_at', '*'), ('_handler_completed_signal', '*'), ('event_processed_at', '*'), ('set_members', '*'), ('_event_completed_signal', '*'), ('event_history', '*')],
             ghost_modifies=['dequeued', 'processed', 'task_done_calls', 'permits_held', 'invoked', 'eh_calls', 'wal_calls', 'wal_lines', 'wal_opens', 'cancel_walk_calls'],
             callsites={'self.event_queue.task_done': {'model': task_done_model, 'writes': ['q_unfinished'], 'ghost_writes': ['task_done_calls']}},
             exits_ensure=[
@@ -458,7 +458,7 @@ def install(spec: Spec):
             requires=[STARTED, SERIAL], ctx_modifies=['holds_global_lock', 'inside_handler', 'current_event', 'current_handler_id'],
             modifies=[('_is_running', 'self')] + [('q_items', '*'), ('q_unfinished', '*'), ('ev_set', '*'), ('task_done', '*'), ('task_cancel_requested', '*'), ('_depth', '*'),
                       ('_semaphore', '*'), ('_loop', '*'), ('sem_value', '*'), ('sem_loop', '*'), ('g$global_lock', '*'), ('event_results', '*'), ('status', '*'), ('result', '*'), ('error', '*'),
-                      ('started_at', '*'), ('completed_at', '*'), ('_handler_completed_signal', '*'), ('event_processed_at', '*'), ('_event_completed_signal', '*'), ('event_history', '*')],
+                      ('started_at', '*'), ('completed_at', '*'), ('_handler_completed_signal', '*'), ('event_processed_at', '*'), ('set_members', '*'), ('_event_completed_signal', '*'), ('event_history', '*')],
             ghost_modifies=['dequeued', 'processed', 'task_done_calls', 'permits_held', 'invoked', 'eh_calls', 'wal_calls', 'wal_lines', 'wal_opens', 'cancel_walk_calls'],
             callsites={'self.step': {'pre': runloop_step_pre}, 'self._on_idle.set': {'pre': idle_set_pre}},
             exit_hook=runloop_exit,
@@ -559,7 +559,7 @@ def install(spec: Spec):
                       ('serial_bus', 'not self.parallel_handlers', []),
                       ('keys_are_handler_ids', HK.replace('"str"', "'str'"), ['C01']), ('handlers_is_a_dict', 'wf_dict(handlers)', [])],
             modifies=[('event_results', '*'), ('status', '*'), ('result', '*'), ('error', '*'), ('started_at', '*'), ('completed_at', '*'), ('_handler_completed_signal', '*'),
-                      ('ev_set', '*'), ('task_done', '*'), ('task_cancel_requested', '*'), ('event_processed_at', '*'), ('_event_completed_signal', '*')],
+                      ('ev_set', '*'), ('task_done', '*'), ('task_cancel_requested', '*'), ('event_processed_at', '*'), ('set_members', '*'), ('_event_completed_signal', '*')],
             ghost_modifies=['invoked', 'eh_calls', 'cancel_walk_calls'],
             callsites={'self.execute_handler': {'pre': eh_pre, 'ghost_writes': ['eh_calls']}},
             loops={1: {'inv': [('each_once_so_far', 'eh_calls == old(eh_calls) + loop_i', ['C01'])]},
